@@ -148,6 +148,17 @@ impl<'a> SchemaDiscoverer<'a> {
         let mut cursor = Cursor::new(self.data);
         cursor.seek(SeekFrom::Start(DbcHeader::SIZE as u64))?;
 
+        // The header is supplied by the caller and untrusted: the records to analyze
+        // must lie inside the data before buffers are sized from its fields
+        let sample_size = records_to_analyze as u64 * self.header.record_size as u64;
+        let available = (self.data.len() as u64).saturating_sub(DbcHeader::SIZE as u64);
+        if sample_size > available || (records_to_analyze > 0 && self.header.record_size == 0) {
+            return Err(Error::OutOfBounds(format!(
+                "{} records of {} bytes do not fit in the {} bytes after the header",
+                records_to_analyze, self.header.record_size, available
+            )));
+        }
+
         // Fetch raw record data for analysis
         let mut record_data = Vec::with_capacity(records_to_analyze as usize);
         for _ in 0..records_to_analyze {
@@ -190,12 +201,14 @@ impl<'a> SchemaDiscoverer<'a> {
 
     /// Analyze all fields to determine their types
     fn analyze_fields(&self, record_data: &[Vec<u32>]) -> Result<Vec<DiscoveredField>> {
-        let mut discovered_fields = Vec::with_capacity(self.header.field_count as usize);
-
         // If no records to analyze, return empty fields
         if record_data.is_empty() {
-            return Ok(discovered_fields);
+            return Ok(Vec::new());
         }
+
+        // Every analyzed record holds field_count values that were read from the
+        // data, so the count is backed by the input here
+        let mut discovered_fields = Vec::with_capacity(self.header.field_count as usize);
 
         // Analyze each field
         for field_index in 0..self.header.field_count as usize {
